@@ -68,32 +68,43 @@ func ruleR08bInto(h *H, rule string) {
 		// contiguity checks: static calls in this function whose callee compares its parameter with lastAppendedOffset+1
 		ok := false
 		why := "no contiguity check of the entry offset precedes the append"
-		ir.Instrs(s.Fn, func(in ssa.Instruction) {
-			c, isCall := in.(*ssa.Call)
-			if !isCall {
-				return
-			}
-			f := c.Call.StaticCallee()
-			if f == nil || !isContiguityCheck(h, f, tn) {
-				return
-			}
-			// it must check the same offset that is appended
-			same := false
-			for _, a := range c.Call.Args {
-				if ir.SameExpr(a, offArg) {
-					same = true
+		// look in the appending function and, when it is an extracted single-call-site
+		// helper, in its caller(s) above the call
+		cur, at, off := s.Fn, ssa.Instruction(s.Call), offArg
+		for level := 0; level < 4 && !ok && cur != nil; level++ {
+			ir.Instrs(cur, func(in ssa.Instruction) {
+				c, isCall := in.(*ssa.Call)
+				if !isCall {
+					return
 				}
+				f := c.Call.StaticCallee()
+				if f == nil || !isContiguityCheck(h, f, tn) {
+					return
+				}
+				// it must check the same offset that is appended
+				same := false
+				for _, a := range c.Call.Args {
+					if ir.SameExpr(a, off) {
+						same = true
+					}
+				}
+				if !same {
+					why = "the contiguity check is applied to a different value than the appended offset"
+					return
+				}
+				if sd, w, _ := ir.SuccessDominated(c, at); sd {
+					ok = true
+				} else {
+					why = w
+				}
+			})
+			site := ir.SingleCallSite(cur)
+			if site == nil {
+				break
 			}
-			if !same {
-				why = "the contiguity check is applied to a different value than the appended offset"
-				return
-			}
-			if sd, w, _ := ir.SuccessDominated(c, s.Call); sd {
-				ok = true
-			} else {
-				why = w
-			}
-		})
+			off = ir.CanonX(off)
+			cur, at = site.Parent(), site
+		}
 		h.Verdict(ok, rule, name, h.pos(s.Call), "after the contiguity check of the same offset succeeded", "an entry can be appended at a non-contiguous offset: "+why)
 	}
 	if n == 0 {
@@ -232,10 +243,10 @@ func ruleR08c(h *H) {
 		return
 	}
 	cb := clientCallbackParam(worker)
-	for _, f := range ir.WithAnon(worker) {
+	for _, f := range regionOf(worker) {
 		ir.Instrs(f, func(in ssa.Instruction) {
 			call := ir.CallOf(in)
-			if call == nil || !call.IsInvoke() || call.Method.Name() != "OnComplete" || ir.Canon(call.Value) != ssa.Value(cb) {
+			if call == nil || !call.IsInvoke() || call.Method.Name() != "OnComplete" || ir.CanonX(call.Value) != ssa.Value(cb) {
 				return
 			}
 			arg := ir.Canon(call.Args[0])
@@ -257,7 +268,7 @@ func ruleR08c(h *H) {
 			}
 			if pw != nil && h.P.Matches(pw.Common(), dbProcessWrite) {
 				// its request argument is the one produced for this invocation's offset
-				req := ir.Canon(argOf(pw.Common(), 0))
+				req := ir.CanonX(argOf(pw.Common(), 0))
 				if rc, isCall := req.(*ssa.Call); isCall && len(rc.Call.Args) == 1 {
 					ok = true
 					detail = "completed with the result of ProcessWrite(request built for this invocation)"
